@@ -336,15 +336,15 @@ def check(run):
              "mirror_tensor only after the kernel succeeded; kernel target is not the public array", floor=5)
     run.rule("R13.3", "shape setter: validating trial assignment and its undo dominate the graph duplication", floor=3)
     run.rule("R13.4", "_op: forward call guarded by a catch-all handler that releases the locked collection and re-raises", floor=2)
-    r13_1(run, "TRACK_GRAPH=T,MEM_GUARD=T", dict(track=True, memguard=True))
+    run.do(r13_1, "TRACK_GRAPH=T,MEM_GUARD=T", dict(track=True, memguard=True))
     if run.tier == "thorough":
         r13_1(run, "TRACK_GRAPH=T,MEM_GUARD=F", dict(track=True, memguard=False))
-    r13_2(run)
-    r13_3(run)
-    r13_4(run)
+    run.do(r13_2)
+    run.do(r13_3)
+    run.do(r13_4)
     run.rule("R13.5", "a public function commits at most one write into the caller's out= target per path", floor=1)
     run.rule("R13.6", "_in_place_op: pre-kernel writes on the public target are undone on failure", floor=1)
-    r13_5(run)
-    r13_6(run)
+    run.do(r13_5)
+    run.do(r13_6)
     run.assume("may-raise = explicit `raise` reachable through resolved repo calls + the forward kernel invocation; failures "
                "inside NumPy after the kernel are assumed absent")
